@@ -22,13 +22,7 @@ P = ("C01",)
 # Perm.occurrences_in: verified, see contracts/occurrences.py (callers use its derived fact  len(result) == OCCN)
 
 
-@contract("MeshPatt.occurrences_in", params={"self": "Mesh", "patt": "Perm"}, returns="gen", props=("C03",), assumed=True)
-class MeshOccurrencesIn:
-    def requires(c, self, patt):
-        return c.and_(c.is_mesh(self), c.is_perm(patt))
-
-    def ensures(c, self, patt, result):
-        return c.len(result) == c.ghost("OCCN", self, patt)
+# MeshPatt.occurrences_in (target a permutation): verified, see contracts/mesh_occurrences.py
 
 
 @contract("Perm._contains", params={"self": "Perm", "patt": "Perm"}, returns="bool", props=P)
